@@ -167,6 +167,8 @@ def gen(rng, strategy, signal_case=False, shared=False):
             desired = min(1.0, soc0 + 0.3)
         arr_step = rng.choice([0, 0, rng.randrange(0, max(1, n // 3))]) if not shared else 0
         margin = rng.choice([1.0, 1.0, 1.3, 2.0, 3.0]) if not directed else rng.choice([1.3, 2.0])
+        if shared:
+            margin = rng.choice([1.5, 2.0, 3.0])      # the one-after-the-other witness is not the only feasible plan
         comp["vehicles"][vid] = {"vehicle_type": "vt", "soc": soc0, "desired_soc": desired, "_arr": arr_step, "_margin": margin, "_cs": cs}
     for sig in ev["grid_operator_signals"]:
         if sig.get("max_power") == "RATING":
